@@ -41,7 +41,13 @@ class ObResult:
 
 def _verify_target(target):
     con = pyvc.REGISTRY[target]
-    rep = pyvc.verify(con)
+    try:
+        rep = pyvc.verify(con)
+    except Exception as e:  # noqa: the engine itself failed on this function: undecided, never a violation
+        import traceback
+        rep = pyvc.FunctionReport(target)
+        rep.status = "unsupported"
+        rep.detail = f"engine error: {type(e).__name__}: {e} :: {traceback.format_exc()[-300:]}"
     obs = [ObResult(o.oid, o.kind, o.status, o.backend, o.time, function=target, model=o.model, line=o.line)
            for o in rep.obligations]
     return rep.to_json(), obs
